@@ -1535,7 +1535,8 @@ class Interp(object):
                 return self.contains(tuple(c.d.keys()), x)
             if isinstance(c, SetCell):
                 from .models import set_contains
-                return set_contains(self, c, x)
+                r = set_contains(self, c, x)
+                return r
             if isinstance(c, ListCell):
                 ek = c.ek
                 return self.wrap_bool(z3.Contains(c.t, z3.Unit(self.kind_unwrap(ek, x))))
